@@ -4,8 +4,8 @@ Proof side : coq/Properties_C16b.v over coq/Handles.v (getters cgi_get_file / ge
              coq/Refcount.v (the tables and their open / close functions, current code = Cur / MCur): for EVERY session
              C16_handle_resolves_to_own_slot_{mll,cgio,adf}, C16_open_handles_distinct_{mll,cgio_adf},
              C16_closed_handle_rejected_{mll,cgio,adf}, C16_close_touches_one_slot_{mll,cgio_adf}, and what is false:
-             C16_mll_number_reissued_refuted (file numbers come back from the third generation of opens on),
-             C16_cgio_closed_slot_accepted_refuted (get_cgnsio tests the range only).
+             C16_cgio_closed_slot_accepted_refuted (get_cgnsio tests the range only); C16_mll_numbers_never_reissued for the
+             current offset arithmetic (+= since /repo ecfdd66), C16_mll_number_reissued_old_refuted for the old one.
 Tie C      : harness/c16b_h.c drives cg_open / cg_close / uses of RAW file numbers and cgio_open_file / cgio_close_file / uses
              of RAW cgio numbers on the library rebuilt from the working tree; after EVERY operation the answer and the tables
              (n_open, n_cgns_files, cgns_file_size, file_number_offset; num_open, num_iolist, slots; ADF_file[] in_use / name /
@@ -24,7 +24,7 @@ import vlib
 
 CHECKER = "make -C coq HandlesProofs.vo (coqc 8.16.1 kernel) ; coqc Properties_C16b.v (Print Assumptions)"
 WORKERS = 4
-K_REISSUE = "handle:mll-file-number-reissued"
+K_REISSUE = "handle:mll-file-number-reissued"           # repaired by /repo ecfdd66 (file_number_offset += n_cgns_files); regression key
 K_CLOSEDSLOT = "handle:cgio-closed-slot-accepted"
 K_FTYPE = "open:adf-file-refused-after-hdf5-default"   # cg_open(READ) of an ADF file fails once the default file type is HDF5
 SPECIAL = {10: "missing", 11: "garbage", 12: "badver", 14: "badbase"}
@@ -59,14 +59,14 @@ def gen_mll(rng, big=False):
                 if cls == "ok":
                     n_open += 1; fn = n_ent + off; open_files[fn] = f; issued.append(fn)
                 elif n_open == 0:
-                    off = n_ent; ent = []; n_ent = 0
+                    off += n_ent; ent = []; n_ent = 0
         elif r < 0.7 and open_files:
             fn = rng.choice(sorted(open_files))
             ops.append("close %d" % fn)
             i = fn - off - 1
             ent[i] = None; n_open -= 1; del open_files[fn]
             if n_open == 0:
-                off = n_ent; ent = []; n_ent = 0
+                off += n_ent; ent = []; n_ent = 0
             for g in sorted(open_files):                     # every other open file must still answer for itself
                 ops.append("get %d" % g)
         elif r < 0.85:
@@ -80,7 +80,7 @@ def gen_mll(rng, big=False):
                 i = fn - off - 1
                 ent[i] = None; n_open -= 1; del open_files[fn]
                 if n_open == 0:
-                    off = n_ent; ent = []; n_ent = 0
+                    off += n_ent; ent = []; n_ent = 0
     for fn in sorted(open_files):
         ops.append("close %d" % fn)
     return setup, ops, classes
@@ -283,8 +283,16 @@ def io_oracle(r):
 
 
 # ----------------------------------------------------------------------------------------------- the check
-REISSUE_SETUP = ["mk 1 adf", "mk 2 hdf5", "mk 3 adf"]
-REISSUE_OPS = ["open 1 r adf", "close 1", "open 2 r hdf5", "open 3 m adf", "close 2", "close 3", "open 1 r adf", "get 3", "get 2"]
+def load_corpus():
+    """corpus/C16b/*.json: witnesses of repaired defects; they run first and must pass"""
+    import glob
+    out = []
+    for f in sorted(glob.glob(os.path.join(vlib.ROOT, "corpus", "C16b", "*.json"))):
+        c = json.load(open(f)); c["file"] = os.path.basename(f)
+        out.append(c)
+    return out
+
+
 FTYPE_SETUP = ["mk 1 adf"]
 FTYPE_OPS = ["open 1 r keep", "close 1", "open 2 w hdf5", "close 2", "open 1 r keep"]
 CLOSEDSLOT = ("world ok,ok,ok 0>1", ["open 0 r", "open 1 r", "close 2", "get 2", "use 2", "use 1", "get 7", "open 2 m", "use 2", "close 1", "close 2"])
@@ -329,7 +337,22 @@ def body(ck, standalone):
     stats = {"mll_sessions": 0, "io_sessions": 0, "ops": 0, "states_compared": 0, "features": {}}
     findings, corr = {}, []
     nm, ni = (60, 80) if big else (10, 14)
-    mcases = [(REISSUE_SETUP, REISSUE_OPS, ["ok"] * 4)] + [gen_mll(ck.rng, big) for _ in range(nm)]
+    stats["corpus"] = {}
+    for c in load_corpus():
+        r = mll_case(exe, c["setup"], c["ops"], c["classes"], ck.work, "b_corp", res["ok"]) if c["level"] == "mll" else \
+            io_case(exe, c["world"], c["ops"], ck.work, "b_corp", res["ok"])
+        bad, _ = (mll_oracle if c["level"] == "mll" else io_oracle)(r)
+        ck.case(hashlib.sha1(("corpus" + c["file"]).encode()).hexdigest(), sample={"corpus": c["file"], "key": c["key"]})
+        stats["corpus"][c["file"]] = "pass"
+        for key, desc in bad:
+            if key and key != c["key"] and ck.known_match(key):
+                ck.finding(key, {"layer": "C16b", "corpus": c["file"], "failure": desc})
+            else:
+                stats["corpus"][c["file"]] = "FAIL"
+                ck.finding(c["key"], dict({k: c[k] for k in c if k in ("level", "setup", "ops", "classes", "world")}, layer="C16b", failure=desc,
+                                          regression_of=c["file"], repaired_by=c.get("fixed_by"),
+                                          oracle="regression corpus: the witness of a repaired defect fails again"))
+    mcases = [gen_mll(ck.rng, big) for _ in range(nm)]
     icases = [CLOSEDSLOT] + [gen_io(ck.rng, big) for _ in range(ni)]
     futs = [pool.submit(mll_case, exe, s, o, c, ck.work, "b_m%d" % i, res["ok"]) for i, (s, o, c) in enumerate(mcases)]
     futs += [pool.submit(io_case, exe, w, o, ck.work, "b_i%d" % i, res["ok"]) for i, (w, o) in enumerate(icases)]
